@@ -1,10 +1,367 @@
-//! C32 — not built yet.
+//! C32 Failed runs are retried at most once.
+//!
+//! Complete enumeration: every sequence of run outcomes over {ok, retry, fatal} of length 1..=4
+//! (120) x every command that performs validation runs (vrps, validate, update, server, server with
+//! listeners), injected into the hooked `routinator` binary through `ROUTINATOR_VERIF_OUTCOMES`.
+//! One-shot commands: the last outcome of the sequence repeats for ever (so `retry` alone is a
+//! persistently failing run); server: the sequence is followed by `fatal` for ever so the server
+//! ends. Observed: the run log written by the hook (one line per validation run) and the exit status.
+//! A ` BOUND` line in the run log (the hook turns run 7 and later into fatal failures) is the loop
+//! detector; time is never a verdict (a generous watchdog only protects the harness: exit 2).
 
+use std::path::{Path, PathBuf};
+use std::process::Command;
+use std::time::Duration;
+
+use serde::{Deserialize, Serialize};
+
+use crate::clibin::*;
 use crate::core::*;
 
-pub const IMPLEMENTED: bool = false;
+#[derive(Serialize, Deserialize, Clone, Copy, Debug, PartialEq, Eq, Hash)]
+#[serde(rename_all = "lowercase")]
+pub enum O {
+    Ok,
+    Retry,
+    Fatal,
+}
 
-pub fn run(_ctx: &Ctx, _rep: &mut Report, _replay: Option<&serde_json::Value>) {
-    eprintln!("C32: check not implemented");
-    std::process::exit(2);
+#[derive(Serialize, Deserialize, Clone, Debug, PartialEq, Eq, Hash)]
+pub struct Cell {
+    /// vrps | validate | update | server | server-listen
+    pub cmd: String,
+    pub seq: Vec<O>,
+    /// Failures happen after a complete engine run (`retry-late` / `fatal-late`) instead of before it.
+    pub late: bool,
+}
+
+pub const COMMANDS: [&str; 5] = ["vrps", "validate", "update", "server", "server-listen"];
+/// Runs beyond this number are forced fatal by the hook and flagged BOUND.
+const RUN_BOUND: usize = 6;
+
+impl Cell {
+    fn is_server(&self) -> bool {
+        self.cmd.starts_with("server")
+    }
+    /// Outcome of the i-th run (0-based) as scripted.
+    fn outcome(&self, i: usize) -> O {
+        match self.seq.get(i) {
+            Some(o) => *o,
+            None if self.is_server() => O::Fatal,
+            None => *self.seq.last().expect("non-empty sequence"),
+        }
+    }
+    fn env_value(&self) -> String {
+        let name = |o: &O| match (o, self.late) {
+            (O::Ok, _) => "ok",
+            (O::Retry, false) => "retry",
+            (O::Retry, true) => "retry-late",
+            (O::Fatal, false) => "fatal",
+            (O::Fatal, true) => "fatal-late",
+        };
+        let mut parts: Vec<String> = self.seq.iter().map(|o| name(o).to_string()).collect();
+        if self.is_server() {
+            parts.push(format!("{}*", name(&O::Fatal)));
+        } else {
+            let last = parts.pop().unwrap();
+            parts.push(format!("{}*", last));
+        }
+        parts.join(",")
+    }
+}
+
+/// The exact shapes of the listed findings (see known_findings.json), used to exclude them from the
+/// enumeration while they are listed.
+fn known_shape(cell: &Cell) -> Option<&'static str> {
+    if cell.cmd != "vrps" {
+        return None;
+    }
+    if cell.seq.iter().all(|o| *o == O::Retry) {
+        return Some("C32/vrps/loops-until-bound");
+    }
+    if cell.seq.len() >= 2 && cell.seq[0] == O::Retry && cell.seq[1] == O::Retry {
+        return Some("C32/vrps/more-than-one-retry");
+    }
+    None
+}
+
+#[derive(Debug, Clone)]
+struct Observed {
+    /// (run number, outcome name, bound flag) per line of the run log
+    runs: Vec<(usize, String, bool)>,
+    proc_: ProcResult,
+}
+
+fn run_cell(bin: &Path, dir: &Path, cell: &Cell) -> Result<Observed, String> {
+    for attempt in 0..3 {
+        let _ = std::fs::remove_dir_all(dir);
+        let cache = dir.join("cache");
+        let tals = dir.join("tals");
+        std::fs::create_dir_all(&cache).map_err(|e| e.to_string())?;
+        std::fs::create_dir_all(&tals).map_err(|e| e.to_string())?;
+        let log = dir.join("runs.log");
+        let mut cmd = Command::new(bin);
+        cmd.current_dir(dir)
+            .env_clear()
+            .env("HOME", dir)
+            .env("PATH", "/usr/bin:/bin")
+            .env("ROUTINATOR_VERIF_OUTCOMES", cell.env_value())
+            .env("ROUTINATOR_VERIF_RUN_BOUND", RUN_BOUND.to_string())
+            .env("ROUTINATOR_VERIF_RUN_LOG", &log)
+            .args(["-q", "-q", "-r"])
+            .arg(&cache)
+            .arg("--no-rir-tals")
+            .arg("--extra-tals-dir")
+            .arg(&tals)
+            .args(["--disable-rsync", "--disable-rrdp"]);
+        match cell.cmd.as_str() {
+            "vrps" => {
+                cmd.args(["vrps", "-o", "/dev/null"]);
+            }
+            "validate" => {
+                cmd.args(["validate", "--asn", "64496", "--prefix", "192.0.2.0/24"]);
+            }
+            "update" => {
+                cmd.arg("update");
+            }
+            "server" => {
+                cmd.args(["server", "--refresh", "1"]);
+            }
+            "server-listen" => {
+                let p1 = crate::rtrnet::free_port().map_err(|e| e.to_string())?;
+                let p2 = crate::rtrnet::free_port().map_err(|e| e.to_string())?;
+                cmd.args(["server", "--refresh", "1", "--rtr", &format!("127.0.0.1:{}", p1), "--http", &format!("127.0.0.1:{}", p2)]);
+            }
+            other => return Err(format!("unknown command {}", other)),
+        }
+        let watchdog = if cell.is_server() { Duration::from_secs(180) } else { Duration::from_secs(90) };
+        let res = run_watchdog(cmd, dir, watchdog)?;
+        let text = std::fs::read_to_string(&log).unwrap_or_default();
+        let mut runs = Vec::new();
+        for line in text.lines() {
+            let mut it = line.split_whitespace();
+            let n: usize = it.next().and_then(|s| s.parse().ok()).ok_or_else(|| format!("bad run log line {:?}", line))?;
+            let o = it.next().unwrap_or("").to_string();
+            let bound = it.next() == Some("BOUND");
+            runs.push((n, o, bound));
+        }
+        if runs.is_empty() && cell.cmd == "server-listen" && attempt < 2 && !res.watchdog {
+            continue; // most likely a port clash
+        }
+        return Ok(Observed { runs, proc_: res });
+    }
+    unreachable!()
+}
+
+/// What the documented behaviour predicts (used for class labels only, never for the verdict).
+fn model_runs(cell: &Cell) -> usize {
+    if cell.is_server() {
+        let mut can_retry = true;
+        let mut i = 0;
+        loop {
+            let o = cell.outcome(i);
+            i += 1;
+            match o {
+                O::Ok => {}
+                O::Fatal => return i,
+                O::Retry => {
+                    if i == 1 {
+                    } else if can_retry {
+                        can_retry = false;
+                    } else {
+                        return i;
+                    }
+                }
+            }
+            if i > 20 {
+                return i;
+            }
+        }
+    } else {
+        match cell.outcome(0) {
+            O::Ok | O::Fatal => 1,
+            O::Retry => {
+                if cell.cmd == "vrps" {
+                    2
+                } else {
+                    1
+                }
+            }
+        }
+    }
+}
+
+fn judge(cell: &Cell, obs: &Observed, info: &mut CaseInfo) -> Verdict {
+    let retries_scripted = (0..RUN_BOUND).filter(|i| cell.outcome(*i) == O::Retry).count();
+    info.nt(retries_scripted >= 2);
+    info.class(format!("cmd={}", cell.cmd));
+    info.class(format!("len={}", cell.seq.len()));
+    if cell.late {
+        info.class("late_failures");
+    }
+    if obs.proc_.watchdog {
+        return Verdict::Dropped("watchdog".into());
+    }
+    let n = obs.runs.len();
+    if n == 0 {
+        return Verdict::Dropped("no_run_performed".into());
+    }
+    let Some(code) = obs.proc_.code else {
+        return Verdict::Dropped(format!("killed_by_signal_{:?}", obs.proc_.signal));
+    };
+    let cmd = &cell.cmd;
+    let describe = || {
+        format!(
+            "command {} with scripted outcomes {} performed {} run(s) [{}] and exited with status {}",
+            cmd,
+            cell.env_value(),
+            n,
+            obs.runs.iter().map(|r| format!("{}{}", r.1, if r.2 { " BOUND" } else { "" })).collect::<Vec<_>>().join(", "),
+            code
+        )
+    };
+    info.class(if n == model_runs(cell) { "runs_as_documented_model" } else { "runs_differ_from_model" });
+    // loop detector
+    if obs.runs.iter().any(|r| r.2) {
+        return Verdict::fail(format!("C32/{}/loops-until-bound", cmd), format!("{}: the command kept starting runs until the hook's bound of {} forced a fatal failure (it would loop for ever on a persistently failing run)", describe(), RUN_BOUND));
+    }
+    // what each performed run was scripted to be
+    let outs: Vec<O> = (0..n).map(|i| cell.outcome(i)).collect();
+    // a fatal failure ends everything
+    if let Some(i) = outs.iter().position(|o| *o == O::Fatal) {
+        if i + 1 < n {
+            return Verdict::fail(format!("C32/{}/run-after-fatal", cmd), format!("{}: run {} failed fatally but {} more run(s) followed", describe(), i + 1, n - i - 1));
+        }
+    }
+    if cell.is_server() {
+        // retries of non-initial runs (the initial run's immediate re-run is the documented start-up behaviour)
+        let retried = (1..n).filter(|i| outs[*i] == O::Retry && *i + 1 < n).count();
+        if retried > 1 {
+            return Verdict::fail(format!("C32/{}/more-than-one-retry", cmd), format!("{}: {} retryable failures after the initial run were each followed by another run (at most one retry allowed before shutting down)", describe(), retried));
+        }
+    } else if let Some(f) = outs.iter().position(|o| *o == O::Retry) {
+        // one-shot: at most one more run after the first retryable failure
+        if n > f + 2 {
+            return Verdict::fail(format!("C32/{}/more-than-one-retry", cmd), format!("{}: {} runs followed the first retryable failure (at most one retry allowed)", describe(), n - f - 1));
+        }
+    }
+    // exit status
+    let last_failed = *outs.last().unwrap() != O::Ok;
+    if last_failed && code == 0 {
+        return Verdict::fail(format!("C32/{}/zero-status-after-failure", cmd), format!("{}: the last run failed but the exit status is 0", describe()));
+    }
+    if !last_failed && code != 0 && !cell.is_server() {
+        return Verdict::fail(format!("C32/{}/error-status-after-success", cmd), format!("{}: the last run succeeded but the exit status is {}; stderr: {}", describe(), code, truncate(&String::from_utf8_lossy(&obs.proc_.stderr), 300)));
+    }
+    Verdict::Pass
+}
+
+fn all_sequences(max_len: usize) -> Vec<Vec<O>> {
+    let mut out = Vec::new();
+    let mut layer: Vec<Vec<O>> = vec![vec![]];
+    for _ in 0..max_len {
+        let mut next = Vec::new();
+        for s in &layer {
+            for o in [O::Ok, O::Retry, O::Fatal] {
+                let mut t = s.clone();
+                t.push(o);
+                next.push(t);
+            }
+        }
+        out.extend(next.iter().cloned());
+        layer = next;
+    }
+    out
+}
+
+fn evaluate(ctx: &Ctx, rep: &mut Report, bin: &Path, base: &Path, cells: &[Cell]) {
+    let results = parallel_map(cells.len(), 32, |i| run_cell(bin, &base.join(format!("cell{}", i)), &cells[i]));
+    let mut infra = Vec::new();
+    let mut reported: std::collections::HashSet<String> = Default::default();
+    let mut more_failing = 0u64;
+    for (cell, res) in cells.iter().zip(results) {
+        match res {
+            Err(e) => infra.push(format!("{:?}: {}", cell, e)),
+            Ok(obs) => {
+                let mut info = CaseInfo::default();
+                let verdict = judge(cell, &obs, &mut info);
+                if let Verdict::Dropped(why) = &verdict {
+                    infra.push(format!("{:?}: {} (exit {:?}, stderr {})", cell, why, obs.proc_.code, truncate(&String::from_utf8_lossy(&obs.proc_.stderr), 300)));
+                }
+                if let Verdict::Fail { key, .. } = &verdict {
+                    // one replay file per failing shape; further cells with the same key are only counted
+                    if !reported.insert(key.clone()) && (ctx.strict || ctx.known_key(key).is_none()) {
+                        more_failing += 1;
+                        continue;
+                    }
+                }
+                let tagged = Tagged { sub: "cell".to_string(), case: cell.clone() };
+                rep.record(ctx, &tagged, &info, &verdict);
+            }
+        }
+    }
+    if more_failing > 0 {
+        let e = rep.extra.entry("further_failing_cells_with_reported_keys".into()).or_insert(serde_json::json!(0));
+        *e = serde_json::json!(e.as_u64().unwrap_or(0) + more_failing);
+    }
+    if !infra.is_empty() {
+        eprintln!("C32: {} cell(s) could not be judged (infrastructure):", infra.len());
+        for l in infra.iter().take(10) {
+            eprintln!("  {}", l);
+        }
+        if !rep.violated() {
+            std::process::exit(2);
+        }
+    }
+}
+
+pub fn run(ctx: &Ctx, rep: &mut Report, replay: Option<&serde_json::Value>) {
+    rep.level = "fault_enumeration".into();
+    rep.rule("complete enumeration: all 120 outcome sequences over {ok,retry,fatal} of length 1..=4 x {vrps, validate, update, server, server with RTR+HTTP listeners}, failures injected before the run; plus the same with failures injected after a complete engine run (retry-late/fatal-late; quick: lengths <=2, thorough: all); one-shot commands see the last outcome repeated for ever, the server sees the sequence followed by fatal for ever; each cell is one run of the hooked routinator binary with an empty TAL set; non-trivial = the script contains >= 2 retryable failures within the first 6 runs; distinct by (command, sequence, late)");
+    rep.assume("forced outcomes replace the result of ValidationReport::process (verif-hooks); the retry logic under test is the unmodified code in operation.rs");
+    rep.assume("a loop is recognised by the hook's run bound (run 7+ forced fatal and flagged), never by elapsed time");
+    let bin = match hooked_binary() {
+        Ok(b) => b,
+        Err(e) => {
+            eprintln!("C32: {}", e);
+            std::process::exit(2);
+        }
+    };
+    let scratch = ctx.scratch();
+    let base: PathBuf = scratch.path().to_path_buf();
+    if let Some(v) = replay {
+        let t: Tagged<Cell> = serde_json::from_value(v.clone()).expect("replay");
+        evaluate(ctx, rep, &bin, &base, &[t.case]);
+        return;
+    }
+    let mut cells = Vec::new();
+    let mut excluded = 0usize;
+    for late in [false, true] {
+        let max_len = if late { ctx.tier.pick(2, 4) } else { 4 };
+        for cmd in COMMANDS {
+            for seq in all_sequences(max_len) {
+                let cell = Cell { cmd: cmd.to_string(), seq, late };
+                if let Some(key) = known_shape(&cell) {
+                    if !ctx.strict && ctx.known_key(key).is_some() {
+                        rep.exclude_known(key);
+                        excluded += 1;
+                        continue;
+                    }
+                }
+                cells.push(cell);
+            }
+        }
+    }
+    evaluate(ctx, rep, &bin, &base, &cells);
+    rep.exhaustive = Some(true);
+    rep.extra.insert("space".into(), serde_json::json!({"cells_run": cells.len(), "cells_excluded_as_listed_known_shapes": excluded, "run_bound": RUN_BOUND}));
+    if rep.violated() {
+        return;
+    }
+    // one directed representative per known shape, every run
+    let directed = vec![
+        Cell { cmd: "vrps".into(), seq: vec![O::Retry, O::Retry, O::Ok], late: false },
+        Cell { cmd: "vrps".into(), seq: vec![O::Retry], late: false },
+    ];
+    evaluate(ctx, rep, &bin, &base.join("directed"), &directed);
 }
